@@ -4,7 +4,7 @@ import Slock.Model.Elect
 
   elect <spec> <event>;<event>;…        one whole execution per line
     spec   = A=<hex32>,<hex32>,…/<member>/<member>/…            (no blanks; A = palette of 16-byte log ids, raw byte order)
-    member = rank:weight:arbiter:ownAof:pid:cid:saved:r.r.r…:v.v.v…   (ownAof and v = palette indices; r = cached roles, v = cached ids, one per table entry)
+    member = rank:weight:arbiter:ownAof:pid:cid:saved:r.r.r…:v.v.v…:s.s.s…   (ownAof and v = palette indices; r = cached roles, v = cached ids, s = statuses (5 = online), one per table entry)
     event  = s<m> start candidacy | q<c>.<t> deliver request of candidate c to t (t=c: the self call) | r<c>.<t> deliver t's reply to c
              | xq<c>.<t> lose the request | xr<c>.<t> lose the reply | R<m> restart from meta.pb | S<m> ArbiterStore.Save | Z snapshot
     output = per event, `;`-joined:  <res>/<pid>.<cid>.<latch>/<phase><voteHost>   of the acting member
@@ -51,6 +51,7 @@ def showOutcome (self : Bool) : Outcome → String
   | .prop r => if self then "self" else
       match r with
       | .ok old => s!"ok{old}" | .reject => "REJECT" | .aofid => "AOFID" | .badHost => "HOST" | .propId n => s!"PID{n}"
+      | .role => "ROLE" | .status => "STATUS" | .offline => "OFFLINE"
   | .commit r => if self then "self" else
       match r with
       | .ok => "ok" | .badHost => "HOST" | .propId => "PID" | .commitId => "CID"
@@ -91,12 +92,13 @@ def parseIdxList (pal : List AofId) (s : String) : Option (List AofId) :=
 
 def parseMember (pal : List AofId) (s : String) : Option Member :=
   match s.splitOn ":" with
-  | [rank, weight, arbiter, own, pid, cid, saved, roles, views] => do
+  | [rank, weight, arbiter, own, pid, cid, saved, roles, views, sts] => do
     let ownA ← listGet? pal (← own.toNat?)
     let rs ← (roles.splitOn ".").mapM String.toNat?
     let vs ← parseIdxList pal views
+    let ss ← (sts.splitOn ".").mapM String.toNat?
     pure { rank := ← rank.toNat?, weight := ← weight.toNat?, arbiter := ← arbiter.toNat?, ownAof := ownA,
-           pid := ← pid.toNat?, cid := ← cid.toNat?, saved := ← saved.toNat?, roles := rs, views := vs }
+           pid := ← pid.toNat?, cid := ← cid.toNat?, saved := ← saved.toNat?, roles := rs, views := vs, statuses := ss }
   | _ => none
 
 def parseSpec (s : String) : Option State :=
